@@ -229,6 +229,12 @@ func (c *Ctx) accessPath(v ssa.Value, depth int) string {
 		return "val@" + v.Name()
 	case *ssa.UnOp:
 		if x.Op == token.MUL {
+			// reload of a parameter spilled into a cell (a closure captures it): names the parameter
+			if al, ok := x.X.(*ssa.Alloc); ok {
+				if p, isParam := core.RootOfAddr(x).(*ssa.Parameter); isParam && al.Referrers() != nil {
+					return "param:" + p.Name()
+				}
+			}
 			return c.accessPath(x.X, depth+1)
 		}
 	case *ssa.FieldAddr:
